@@ -41,6 +41,27 @@ def none_only(cond, repl, guards):
     return (cond is not None and implies_none(cond)) or any(implies_none(g) for g in guards)
 
 
+def position_adapters(ctx, rule):
+    """Slicing / Indexing: build puts the object back exactly where parse took it from."""
+    M = ctx.model
+    # Slicing / Indexing: build puts the object back exactly where parse took it from
+    for cls in ("Slicing", "Indexing"):
+        fd, pd = own_method_paths(ctx, cls, "_decode")
+        fe, pe = own_method_paths(ctx, cls, "_encode")
+        dk = pd[0].retval[2] if len(pd) == 1 and pd[0].retval is not None and pd[0].retval[0] == "sub" and pd[0].retval[1] == OBJ else None
+        ok = dk is not None
+        nst = 0
+        for p in pe:
+            if not p.returns or p.retval == OBJ:
+                continue
+            st = [e for e in p.events if e.kind == "STORE"]
+            known = {c[2]: N.NONE for c in p.guards() if c[0] == "cmp" and c[1] == "is" and c[3] == N.NONE}
+            want = N.subst(dk, known) if dk is not None else None
+            nst += 1
+            ok = ok and len(st) == 1 and st[0]["key"] == want and st[0]["value"] == OBJ and st[0]["base"] == p.retval and N.contains(p.retval, N.selfattr("count"))
+        ctx.ob(rule, fe, ok and nst >= 1, "%s._encode stores the object under the very index/slice (start, stop, step) that _decode reads, in a list of `count` fillers" % cls, key="%s encode position" % cls)
+
+
 def substitution_checks(ctx, rule, only=None):
     """A `_build` hands the inner construct a constructor-supplied replacement only when the supplied object is None (or equals it)."""
     M = ctx.model
@@ -98,22 +119,7 @@ def run(ctx):
     for cls in ("Hex", "HexDump"):
         fi, paths = own_method_paths(ctx, cls, "_encode")
         ctx.ob("C02.R1", fi, len(paths) == 1 and paths[0].retval == OBJ, "%s._encode is the identity" % cls, key="%s encode" % cls)
-    # Slicing / Indexing: build puts the object back exactly where parse took it from
-    for cls in ("Slicing", "Indexing"):
-        fd, pd = own_method_paths(ctx, cls, "_decode")
-        fe, pe = own_method_paths(ctx, cls, "_encode")
-        dk = pd[0].retval[2] if len(pd) == 1 and pd[0].retval is not None and pd[0].retval[0] == "sub" and pd[0].retval[1] == OBJ else None
-        ok = dk is not None
-        nst = 0
-        for p in pe:
-            if not p.returns or p.retval == OBJ:
-                continue
-            st = [e for e in p.events if e.kind == "STORE"]
-            known = {c[2]: N.NONE for c in p.guards() if c[0] == "cmp" and c[1] == "is" and c[3] == N.NONE}
-            want = N.subst(dk, known) if dk is not None else None
-            nst += 1
-            ok = ok and len(st) == 1 and st[0]["key"] == want and st[0]["value"] == OBJ and st[0]["base"] == p.retval and N.contains(p.retval, N.selfattr("count"))
-        ctx.ob("C02.R1", fe, ok and nst >= 1, "%s._encode stores the object under the very index/slice (start, stop, step) that _decode reads, in a list of `count` fillers" % cls, key="%s encode position" % cls)
+    position_adapters(ctx, "C02.R1")
     ctx.floor("C02.R1", 12)
 
     # ---------------------------------------------------------------- R2
@@ -205,7 +211,7 @@ def run(ctx):
             ctx.ob("C02.R8", o.where, o.ok, o.what, key=o.key, loc=o.loc, detail=o.detail)
     ctx.floor("C02.R8", 20)
     from . import C04
-    C04.shared_obligations(ctx, "C02.R9", {"Aligned", "Padded", "Default", "Prefixed", "FixedSized", "NullTerminated", "Select", "Enum", "FlagsEnum", "Flag", "Mapping", "Const", "Rebuild"})
+    C04.shared_obligations(ctx, "C02.R9", {"Aligned", "Padded", "Default", "Prefixed", "FixedSized", "NullTerminated", "Select", "Enum", "FlagsEnum", "Flag", "Mapping", "Const", "Rebuild"}, with_expressions=True)
     ctx.floor("C02.R9", 10)
     # ---------------------------------------------------------------- R10 the stream helpers accept on build what they hand out on parse
     # (exact non-negative lengths on both sides; bytes *and its subclasses*, which Hex/HexDump return)
